@@ -39,6 +39,21 @@ pub fn generate(repo: &PathBuf) -> Result<String, String> {
     if !c.methods.iter().any(|m| m == "checked_sub") {
         return Err("from_str: expected checked_sub of the remainder length from the power-of-ten constant".into());
     }
+    // the length limit on the fraction is applied to the string as written (trailing zeros included), i.e.
+    // BEFORE `trim_end_matches('0')`. Two-sided: `true` only on the exact guard
+    // `if remainder_str.len() as u64 > TOKEN_TO_RAW_POWER_OF_10_CONVERSION { return Err(LossOfPrecision); }`,
+    // `false` only when nothing before the trim looks at a length or reports LossOfPrecision; anything else is refused.
+    let fs_src = quote::ToTokens::to_token_stream(&fs.block).to_string().replace(' ', "");
+    let trim_at = fs_src.find("trim_end_matches('0')").ok_or("from_str: expected trim_end_matches('0') on the remainder")?;
+    let before_trim = &fs_src[..trim_at];
+    let guard = "ifremainder_str.len()asu64>TOKEN_TO_RAW_POWER_OF_10_CONVERSION{returnErr(EvmError::LossOfPrecision);}";
+    let frac_len_untrimmed = if before_trim.contains(guard) {
+        true
+    } else if !before_trim.contains(".len()") && !before_trim.contains("LossOfPrecision") {
+        false
+    } else {
+        return Err("from_str: a length / LossOfPrecision test precedes trim_end_matches('0') but is not the recognised guard `if remainder_str.len() as u64 > TOKEN_TO_RAW_POWER_OF_10_CONVERSION { return Err(EvmError::LossOfPrecision); }`".into());
+    };
     let add = impl_fn(&file, "AttoTokens", None, "checked_add")?;
     let sub = impl_fn(&file, "AttoTokens", None, "checked_sub")?;
     let (ac, sc) = (calls_in_block(&add.block), calls_in_block(&sub.block));
@@ -75,6 +90,7 @@ pub fn generate(repo: &PathBuf) -> Result<String, String> {
     s.push_str(&format!("/-- zero-pad width of the remainder in `Display` (format string {lit:?}) -/\ndef displayPad : Nat := {pad}\n"));
     s.push_str(&format!("/-- `from_str`: units * RAW goes through `checked_mul` -/\ndef unitsMulChecked : Bool := {}\n", lean_bool(units_mul_checked)));
     s.push_str(&format!("/-- `from_str`: units + remainder goes through `checked_add` (otherwise wrapping `+`) -/\ndef finalAddChecked : Bool := {}\n", lean_bool(final_add_checked)));
+    s.push_str(&format!("/-- `from_str`: the fraction as written (before trailing zeros are trimmed) is limited to `TOKEN_TO_RAW_POWER_OF_10_CONVERSION` digits -/\ndef fracLenCheckedUntrimmed : Bool := {}\n", lean_bool(frac_len_untrimmed)));
     s.push_str(&format!("/-- `AttoTokens::checked_add` delegates to `Amount::checked_add` -/\ndef addIsChecked : Bool := {}\n", lean_bool(add_checked)));
     s.push_str(&format!("/-- `AttoTokens::checked_sub` delegates to `Amount::checked_sub` -/\ndef subIsChecked : Bool := {}\n", lean_bool(sub_checked)));
     s.push_str(&format!("/-- ant-cli `collect_upload_summary`: every arm that consumes an `UploadComplete` event adds to the running total ({n_acc} of {n_loops} arms use `+=`, {n_assign} plain assignments) -/\ndef cliSummaryAccumulates : Bool := {}\n", lean_bool(cli_accumulates)));
